@@ -182,22 +182,32 @@ def tee_map(*args, join='zip'):
 
     args = [rx.pipe(*arg) if type(arg) is list else arg for arg in args]
     def _tee_map(source):
-        if isinstance(source, rs.MuxObservable):
-            connectable = source.pipe(
-                ops.publish(),
-                rs.cast_as_mux_connectable(),
-            )
+        is_mux = isinstance(source, rs.MuxObservable)
 
+        def on_subscribe(observer, scheduler):
+            # the published source and the branches are built for each
+            # subscription: a connectable that has completed cannot be
+            # connected again.
+            if is_mux:
+                connectable = source.pipe(
+                    ops.publish(),
+                    rs.cast_as_mux_connectable(),
+                )
+            else:
+                connectable = source.pipe(
+                    ops.publish()
+                )
+
+            return _process_many(
+                *[arg(connectable) for arg in args],
+                connectable=connectable,
+                zip=zip,
+                combine=combine,
+            ).subscribe(observer, scheduler=scheduler)
+
+        if is_mux:
+            return rs.MuxObservable(on_subscribe)
         else:
-            connectable = source.pipe(
-                ops.publish()
-            )
-
-        return _process_many(
-            *[arg(connectable) for arg in args],
-            connectable=connectable,
-            zip=zip,
-            combine=combine,
-        )
+            return rx.create(on_subscribe)
 
     return _tee_map
